@@ -175,6 +175,7 @@ func genC18(seed int64, tier string) *Scenario {
 			}
 			if rng.Intn(4) == 0 {
 				holdOp(rng, &o, []string{"router.install", "drain.begin", "drain.end", "cmd.ret", "cmd.found"})
+				lockHoldOp(rng, &o)
 			}
 			a.Ops = append(a.Ops, o)
 		}
